@@ -62,6 +62,8 @@ struct LogLayer {
     /// fault injection: when > 0, counts layer lookups down; the lookup that reaches 0 fails once
     /// with EMFILE (a transient resource fault of the host)
     fault: Arc<AtomicI64>,
+    /// armed: the next mutating call on the upper layer (index 0) fails with EIO
+    fail_mut: Arc<std::sync::atomic::AtomicBool>,
     /// schedule control: a thread marked SLOW is parked at its first `forget` (which the overlay
     /// calls between scanning a directory and recording the scan) until the gate is opened
     gate: Gate,
@@ -71,11 +73,22 @@ type Gate = Arc<Mutex<Option<(SyncSender<()>, Receiver<()>)>>>;
 
 thread_local! {
     static SLOW: Cell<bool> = const { Cell::new(false) };
+    /// the upper-layer method the `fail` step refused (the request runs on the calling thread)
+    static REFUSED: Cell<&'static str> = const { Cell::new("") };
 }
 
 impl LogLayer {
     fn rec(&self, m: &'static str) {
         self.log.lock().unwrap().push((self.idx, m));
+    }
+    /// a mutating call: logged; refused with EIO when the `fail` step armed the upper layer
+    fn mutating(&self, m: &'static str) -> io::Result<()> {
+        self.rec(m);
+        if self.idx == 0 && self.fail_mut.swap(false, Ordering::SeqCst) {
+            REFUSED.with(|r| r.set(m));
+            return Err(io::Error::from_raw_os_error(libc::EIO));
+        }
+        Ok(())
     }
 }
 
@@ -102,55 +115,55 @@ impl FileSystem for LogLayer {
         self.inner.getattr(ctx, inode, handle)
     }
     fn setattr(&self, ctx: &Context, inode: u64, attr: stat64, handle: Option<u64>, valid: SetattrValid) -> io::Result<(stat64, Duration)> {
-        self.rec("setattr");
+        self.mutating("setattr")?;
         self.inner.setattr(ctx, inode, attr, handle, valid)
     }
     fn readlink(&self, ctx: &Context, inode: u64) -> io::Result<Vec<u8>> {
         self.inner.readlink(ctx, inode)
     }
     fn symlink(&self, ctx: &Context, linkname: &CStr, parent: u64, name: &CStr) -> io::Result<Entry> {
-        self.rec("symlink");
+        self.mutating("symlink")?;
         self.inner.symlink(ctx, linkname, parent, name)
     }
     fn mknod(&self, ctx: &Context, inode: u64, name: &CStr, mode: u32, rdev: u32, umask: u32) -> io::Result<Entry> {
-        self.rec("mknod");
+        self.mutating("mknod")?;
         self.inner.mknod(ctx, inode, name, mode, rdev, umask)
     }
     fn mkdir(&self, ctx: &Context, parent: u64, name: &CStr, mode: u32, umask: u32) -> io::Result<Entry> {
-        self.rec("mkdir");
+        self.mutating("mkdir")?;
         self.inner.mkdir(ctx, parent, name, mode, umask)
     }
     fn unlink(&self, ctx: &Context, parent: u64, name: &CStr) -> io::Result<()> {
-        self.rec("unlink");
+        self.mutating("unlink")?;
         self.inner.unlink(ctx, parent, name)
     }
     fn rmdir(&self, ctx: &Context, parent: u64, name: &CStr) -> io::Result<()> {
-        self.rec("rmdir");
+        self.mutating("rmdir")?;
         self.inner.rmdir(ctx, parent, name)
     }
     fn rename(&self, ctx: &Context, olddir: u64, oldname: &CStr, newdir: u64, newname: &CStr, flags: u32) -> io::Result<()> {
-        self.rec("rename");
+        self.mutating("rename")?;
         self.inner.rename(ctx, olddir, oldname, newdir, newname, flags)
     }
     fn link(&self, ctx: &Context, inode: u64, newparent: u64, newname: &CStr) -> io::Result<Entry> {
-        self.rec("link");
+        self.mutating("link")?;
         self.inner.link(ctx, inode, newparent, newname)
     }
     fn open(&self, ctx: &Context, inode: u64, flags: u32, fuse_flags: u32) -> io::Result<(Option<u64>, OpenOptions, Option<u32>)> {
         if flags & (libc::O_WRONLY | libc::O_RDWR | libc::O_TRUNC | libc::O_APPEND | libc::O_CREAT) as u32 != 0 {
-            self.rec("open-w");
+            self.mutating("open-w")?;
         }
         self.inner.open(ctx, inode, flags, fuse_flags)
     }
     fn create(&self, ctx: &Context, parent: u64, name: &CStr, args: CreateIn) -> io::Result<(Entry, Option<u64>, OpenOptions, Option<u32>)> {
-        self.rec("create");
+        self.mutating("create")?;
         self.inner.create(ctx, parent, name, args)
     }
     fn read(&self, ctx: &Context, inode: u64, handle: u64, w: &mut dyn ZeroCopyWriter, size: u32, offset: u64, lock_owner: Option<u64>, flags: u32) -> io::Result<usize> {
         self.inner.read(ctx, inode, handle, w, size, offset, lock_owner, flags)
     }
     fn write(&self, ctx: &Context, inode: u64, handle: u64, r: &mut dyn ZeroCopyReader, size: u32, offset: u64, lock_owner: Option<u64>, delayed_write: bool, flags: u32, fuse_flags: u32) -> io::Result<usize> {
-        self.rec("write");
+        self.mutating("write")?;
         self.inner.write(ctx, inode, handle, r, size, offset, lock_owner, delayed_write, flags, fuse_flags)
     }
     fn flush(&self, ctx: &Context, inode: u64, handle: u64, lock_owner: u64) -> io::Result<()> {
@@ -160,7 +173,7 @@ impl FileSystem for LogLayer {
         self.inner.fsync(ctx, inode, datasync, handle)
     }
     fn fallocate(&self, ctx: &Context, inode: u64, handle: u64, mode: u32, offset: u64, length: u64) -> io::Result<()> {
-        self.rec("fallocate");
+        self.mutating("fallocate")?;
         self.inner.fallocate(ctx, inode, handle, mode, offset, length)
     }
     fn release(&self, ctx: &Context, inode: u64, flags: u32, handle: u64, flush: bool, flock_release: bool, lock_owner: Option<u64>) -> io::Result<()> {
@@ -170,7 +183,7 @@ impl FileSystem for LogLayer {
         self.inner.statfs(ctx, inode)
     }
     fn setxattr(&self, ctx: &Context, inode: u64, name: &CStr, value: &[u8], flags: u32) -> io::Result<()> {
-        self.rec("setxattr");
+        self.mutating("setxattr")?;
         self.inner.setxattr(ctx, inode, name, value, flags)
     }
     fn getxattr(&self, ctx: &Context, inode: u64, name: &CStr, size: u32) -> io::Result<GetxattrReply> {
@@ -180,7 +193,7 @@ impl FileSystem for LogLayer {
         self.inner.listxattr(ctx, inode, size)
     }
     fn removexattr(&self, ctx: &Context, inode: u64, name: &CStr) -> io::Result<()> {
-        self.rec("removexattr");
+        self.mutating("removexattr")?;
         self.inner.removexattr(ctx, inode, name)
     }
     fn opendir(&self, ctx: &Context, inode: u64, flags: u32) -> io::Result<(Option<u64>, OpenOptions)> {
@@ -207,15 +220,15 @@ impl Layer for LogLayer {
     // the three helpers are logged under their own names; their default bodies run on the inner
     // layer (so the mknod/unlink/setxattr they issue are not logged a second time)
     fn create_whiteout(&self, ctx: &Context, parent: u64, name: &CStr) -> io::Result<Entry> {
-        self.rec("create_whiteout");
+        self.mutating("create_whiteout")?;
         self.inner.create_whiteout(ctx, parent, name)
     }
     fn delete_whiteout(&self, ctx: &Context, parent: u64, name: &CStr) -> io::Result<()> {
-        self.rec("delete_whiteout");
+        self.mutating("delete_whiteout")?;
         self.inner.delete_whiteout(ctx, parent, name)
     }
     fn set_opaque(&self, ctx: &Context, inode: u64) -> io::Result<()> {
-        self.rec("set_opaque");
+        self.mutating("set_opaque")?;
         self.inner.set_opaque(ctx, inode)
     }
     fn is_whiteout(&self, ctx: &Context, inode: u64) -> io::Result<bool> {
@@ -228,19 +241,24 @@ impl Layer for LogLayer {
 
 type BoxedLayer = Box<dyn Layer<Inode = u64, Handle = u64> + Send + Sync>;
 
-fn new_layer(dir: &str, idx: usize, log: &CallLog, fault: &Arc<AtomicI64>, gate: &Gate) -> io::Result<Arc<BoxedLayer>> {
+fn new_layer(dir: &str, idx: usize, log: &CallLog, fault: &Arc<AtomicI64>, gate: &Gate, fail_mut: &Arc<std::sync::atomic::AtomicBool>) -> io::Result<Arc<BoxedLayer>> {
     // exactly the documented construction (tests/overlay): new + import, xattr on, never `init`
     let cfg = PtConfig { root_dir: dir.to_string(), xattr: true, do_import: true, ..Default::default() };
     let fs = PassthroughFs::<()>::new(cfg)?;
     fs.import()?;
-    Ok(Arc::new(Box::new(LogLayer { inner: fs, idx, log: log.clone(), fault: fault.clone(), gate: gate.clone() }) as BoxedLayer))
+    Ok(Arc::new(Box::new(LogLayer { inner: fs, idx, log: log.clone(), fault: fault.clone(), gate: gate.clone(), fail_mut: fail_mut.clone() }) as BoxedLayer))
 }
 
 struct Inst {
     fs: OverlayFs,
     log: CallLog,
     fault: Arc<AtomicI64>,
+    /// armed: the next mutating call on the upper layer (index 0) fails with EIO
+    fail_mut: Arc<std::sync::atomic::AtomicBool>,
     gate: Gate,
+    /// inode numbers this client has LOOKed UP (and never forgets): their count stays positive
+    /// when a READDIRPLUS reference is given back
+    held: Mutex<std::collections::HashSet<u64>>,
 }
 
 fn layer_dir(base: &str, i: usize) -> String {
@@ -251,15 +269,16 @@ fn build(base: &str, up: bool, nl: usize) -> io::Result<Inst> {
     let log: CallLog = Arc::new(Mutex::new(Vec::new()));
     let fault = Arc::new(AtomicI64::new(0));
     let gate: Gate = Arc::new(Mutex::new(None));
-    let upper = if up { Some(new_layer(&layer_dir(base, 0), 0, &log, &fault, &gate)?) } else { None };
+    let fail_mut = Arc::new(std::sync::atomic::AtomicBool::new(false));
+    let upper = if up { Some(new_layer(&layer_dir(base, 0), 0, &log, &fault, &gate, &fail_mut)?) } else { None };
     let mut lowers = Vec::new();
     for i in 1..=nl {
-        lowers.push(new_layer(&layer_dir(base, i), i, &log, &fault, &gate)?);
+        lowers.push(new_layer(&layer_dir(base, i), i, &log, &fault, &gate, &fail_mut)?);
     }
     let cfg = OvlConfig { do_import: true, ..Default::default() };
     let fs = OverlayFs::new(upper, lowers, cfg)?;
     fs.import()?;
-    Ok(Inst { fs, log, fault, gate })
+    Ok(Inst { fs, log, fault, gate, fail_mut, held: Mutex::new(Default::default()) })
 }
 
 fn errno(e: &io::Error) -> String {
@@ -308,6 +327,7 @@ fn resolve(inst: &Inst, path: &str) -> Result<(u64, stat64), String> {
         if e.inode == 0 {
             return Err("e2".into());
         }
+        inst.held.lock().unwrap().insert(e.inode);
         ino = e.inode;
         st = e.attr;
     }
@@ -425,8 +445,14 @@ fn entry_via_readdirplus(inst: &Inst, ino: u64, name: char) -> Result<Option<sta
         }
     }
     inst.fs.releasedir(&ctx, ino, 0, h).map_err(|e| errno(&e))?;
+    // (only for entries this client also holds a LOOKUP reference on, so that the node stays
+    // cached and the rest of the history runs on the same inode numbers; dropping the LAST
+    // reference is exercised by the `flast` step)
+    let held = inst.held.lock().unwrap().clone();
     for i in delivered {
-        inst.fs.forget(&ctx, i, 1);
+        if held.contains(&i) {
+            inst.fs.forget(&ctx, i, 1);
+        }
     }
     Ok(found)
 }
@@ -504,7 +530,10 @@ fn walk(inst: &Inst, io: &Io, orc: &mut Vec<(String, String)>) -> BTreeMap<Strin
                     for c in names {
                         let p = format!("{}{}", path, c);
                         match inst.fs.lookup(&ctx, ino, &cname(c)) {
-                            Ok(e) if e.inode != 0 => rec(inst, io, e.inode, &e.attr, &p, out, orc, depth + 1),
+                            Ok(e) if e.inode != 0 => {
+                                inst.held.lock().unwrap().insert(e.inode);
+                                rec(inst, io, e.inode, &e.attr, &p, out, orc, depth + 1)
+                            }
                             Ok(_) => {
                                 out.insert(p, "listed-but-negative".into());
                             }
@@ -1188,6 +1217,62 @@ fn exec(line: &str, base: &str) -> CaseOut {
             inst.fault.store(0, Ordering::SeqCst);
             continue;
         }
+        if name == "flast" && op.len() > 1 {
+            // `flast,<name>`: READDIRPLUS of the root, FORGET of every delivered entry (the client
+            // holds no other reference), then LOOKUP of the root-level <name>, which the listing
+            // delivered: giving references back must not change the tree.  Model-free.
+            let ctx = Context::default();
+            let mut delivered: Vec<(Vec<u8>, u64)> = Vec::new();
+            if let Ok((h, _)) = inst.fs.opendir(&ctx, 1, libc::O_RDONLY as u32) {
+                let h = h.unwrap_or(0);
+                let _ = inst.fs.readdirplus(&ctx, 1, h, 1 << 16, 0, &mut |d: DirEntry, e: Entry| {
+                    if e.inode != 0 && d.name != b"." && d.name != b".." {
+                        delivered.push((d.name.to_vec(), e.inode));
+                    }
+                    Ok(152 + d.name.len())
+                });
+                let _ = inst.fs.releasedir(&ctx, 1, 0, h);
+            }
+            for (_, i) in &delivered {
+                inst.fs.forget(&ctx, *i, 1);
+            }
+            let c = op[1].chars().next().unwrap_or('a');
+            if delivered.iter().any(|(n, _)| n == c.to_string().as_bytes()) {
+                if let Err(e) = inst.fs.lookup(&ctx, 1, &cname(c)) {
+                    for p in ["C10", "C11"] {
+                        fire(p, format!("{}:forget-last-reference:entry-vanishes", p), format!("READDIRPLUS delivered `{}`, the client gave the reference back with FORGET, and the next LOOKUP of `{}` answers {}", c, c, errno(&e)), &mut out.oracle);
+                    }
+                }
+            }
+            out.stats.push(format!("flast:delivered{}", delivered.len()));
+            out.stats.push("op:flast".into());
+            continue;
+        }
+        if name == "fail" && op.len() > 2 {
+            // `fail,<unlink|rmdir>,<path>`: the first mutating call the request makes on the upper
+            // layer fails with EIO.  A failed request changes nothing: the view before and after
+            // must agree (and the model, which has no faults, skips the step).
+            let mut scratch = Vec::new();
+            let v0 = walk(&inst, &io, &mut scratch);
+            let l0 = scan_layers(base);
+            inst.fail_mut.store(true, Ordering::SeqCst);
+            REFUSED.with(|r| r.set(""));
+            let inner: Vec<&str> = op[1..].to_vec();
+            let res = do_op(&inst, &io, &inner, &mut scratch);
+            let consumed = !inst.fail_mut.swap(false, Ordering::SeqCst);
+            let v1 = walk(&inst, &io, &mut scratch);
+            let l1 = scan_layers(base);
+            let refused = REFUSED.with(|r| r.get());
+            out.stats.push(format!("fail:{}", if consumed { format!("fault-hit:{}", refused) } else { "fault-not-reached".to_string() }));
+            if consumed && res.starts_with("ok") {
+                fire("C10", format!("C10:failed-op:reported-success:{}:{}", inner[0], refused), format!("{}: the upper layer refused the request's first modification (EIO) but the client was answered {}", o, res), &mut out.oracle);
+            }
+            if consumed && (v0 != v1 || l0 != l1) {
+                let d: Vec<String> = v0.iter().filter(|(k, v)| v1.get(*k) != Some(v)).map(|(k, _)| k.clone()).chain(v1.keys().filter(|k| !v0.contains_key(*k)).cloned()).take(3).collect();
+                fire("C10", format!("C10:failed-op:changed-view:{}:{}", inner[0], refused), format!("{} answered {} after the upper layer refused its first modification, yet these paths changed: {:?}", o, res, d), &mut out.oracle);
+            }
+            continue;
+        }
         let before = scan_layers(base);
         inst.log.lock().unwrap().clear();
         let mut orc: Vec<(String, String)> = Vec::new();
@@ -1587,6 +1672,14 @@ fn gen_case(r: &mut Prng, prop: &str) -> String {
     }
     if ops.last().map(|s| s.as_str()) != Some("walk") {
         ops.push("walk".into());
+    }
+    if up && r.chance(1, 3) && !known.is_empty() {
+        // last of all: a removal whose first modification of the upper layer is refused
+        let p = r.pick(&known).clone();
+        // (no walk afterwards: the step compares the views itself, and where the refused call is
+        // the whiteout creation the unchanged overlay has already unpublished the node — known
+        // finding C10:failed-op:changed-view:*:create_whiteout)
+        ops.push(format!("fail,{},{}", if dirs.contains(&p) { "rmdir" } else { "unlink" }, p));
     }
     let mut line = format!("up={} nl={}", if up { 1 } else { 0 }, nl);
     for (i, l) in layers.iter().enumerate() {
